@@ -514,7 +514,7 @@ def fn_rules(ctx, fn):
         base = show((info or {}).get('base', ('?',)))
         pn = fn.hp(hn)
         labs = [x.split('=')[-1] for x in fn.alts[int(al)][1]]
-        ok = base == 'function.arguments' and names == ['iter', 'filter', 'map', 'collect'] and r[2] == ',' and labs == ['ConstSelf', 'MutSelf', 'Field'] and pn[0] is not None and pn[0].endswith('Field#0')
+        ok = base == 'function.arguments' and names in (['iter', 'filter', 'map', 'collect'], ['iter', 'filter_map', 'collect']) and r[2] == ',' and labs == ['ConstSelf', 'MutSelf', 'Field'] and pn[0] is not None and pn[0].endswith('Field#0')
         return ok, 'over %s %s' % (base, names)
     # Address arm
     a = arms[0]
@@ -572,7 +572,26 @@ def fn_rules(ctx, fn):
                 flt = x
     okf = False
     det = 'filter closure not found'
+    fm_ = None
     if not flt:
+        # filter_map form: the closure returns None exactly when body.is_field() && a.is_self()
+        for rid in fn.reps:
+            r_, info_ = fn.rep_info(rid)
+            for c_ in (info_ or {}).get('chain', []):
+                if c_[0] == 'filter_map' and c_[1] and c_[1][0] == 'closure' and c_[1][1] in P.fns:
+                    fm_ = (P.fns[c_[1][1]], c_[1][2])
+    if fm_ is not None:
+        cf_, caps_ = fm_
+        nones_ = [x for x in cf_.exits() if x['kind'] == 'none']
+        somes_ = [x for x in cf_.exits() if x['kind'] == 'some']
+        if len(nones_) == 1 and somes_:
+            from mirlib import _edge_conds
+            cs = [(strip(subst_closure(cf_, expand(cf_, c_), [], caps_)), lab) for _b, c_, lab in _edge_conds(cf_, nones_[0]['block'])]
+            isf_ = [c_ for c_, lab in cs if lab is True and ((c_[0] == 'var' and any(is_call_(d_, 'FunctionBody::is_field') for d_ in fn.f.init_of(c_[1]))) or is_call_(c_, 'FunctionBody::is_field'))]
+            iss_ = [c_ for c_, lab in cs if lab is True and is_call_(c_, 'Argument::is_self') and strip(c_[2][0])[0] == 'arg']
+            det = 'filter_map: None under %s' % [(show(c_)[:50], lab) for c_, lab in cs]
+            okf = len(cs) == 2 and len(isf_) == 1 and len(iss_) == 1
+    if not flt and fm_ is None:
         # loop form: `for a in &function.arguments { if is_field && a.is_self() { continue; } v.push(..) }`
         lcs = set()
         for rid in fn.reps:
